@@ -16,6 +16,10 @@ L3: the property statement on the real code, independent of the model: analytic 
     Richardson-type O(eps^2) criterion, the closed forms summed over the entries masked in NEITHER the model NOR the data (H) /
     the respective bootstrap (its score) for mask patterns that differ between model, data and bootstraps; every statistic recomputed from the closed forms; bootstrap permutations; every call
     history against the same calls on a cleared cache; sum_chi2_ppf scalar vs array vs scipy survival functions.
+Round 5: P-population and folded spectra in the pipeline (closed forms with the harness's own fold of the basis spectra; K c19.llnd,
+    c19.bootmasknd); boot_theta_adjusts x the module-level cache (K c19.cacheadj with the generated effect flags; L3: the cache holds what
+    the model function returned, histories, pairs permuted together); the PROVED explicit O(eps^2) constants of C19_get_hess_order /
+    C19_get_grad_order evaluated on the real finite differences; sum_chi2_ppf with exact zeros at interior positions every run.
 """
 import math, itertools, gc, contextlib, logging, io
 from fractions import Fraction
